@@ -227,4 +227,193 @@ Section Closure.
         destruct (IH _ _ _ _ out H (Inv_miss _ _ _ Hit KU HI)) as [I1 [_ C1]].
         split; [exact I1|]. split; [intros Hu; congruence|exact C1].
   Qed.
+
+  Lemma gen_all_spec fuel : forall src cache ds out,
+    gen_all pr nodes true fuel src cache = Ok ds -> Inv cache out -> closed_in ds (out ++ ds).
+  Proof.
+    induction src as [|t r IH]; intros cache ds out H HI; cbn [gen_all] in H.
+    - inversion H; subst. apply closed_nil.
+    - destruct (generate pr nodes true fuel cache t) as [[c1 d1]| |] eqn:G; simpl in H; try discriminate.
+      destruct (gen_all pr nodes true fuel r c1) as [d2| |] eqn:GA; simpl in H; try discriminate.
+      inversion H; subst. clear H.
+      destruct (gen_spec fuel _ _ _ _ out G HI) as [I1 [_ C1]].
+      pose proof (IH _ _ (out ++ d1)%list GA I1) as C2. rewrite app_assoc.
+      apply closed_app; [apply closed_mono; exact C1|exact C2].
+  Qed.
+
+  Lemma closed_in_bool ds : closed_in ds ds -> closed ds = true.
+  Proof.
+    intro H. unfold closed. apply forallb_forall. intros d Hd. apply forallb_forall. intros w Hw.
+    destruct (wr_same_pkg w) eqn:S; simpl; [|reflexivity].
+    apply existsb_exists. exists (wr_text w). split; [eapply H; eassumption|apply String.eqb_refl].
+  Qed.
+
+  Theorem gounions_closed src ds : gounions pr nodes true src = Ok ds -> closed ds = true.
+  Proof.
+    unfold gounions. intro H. apply closed_in_bool.
+    apply (gen_all_spec _ _ _ _ [] H). intros id [].
+  Qed.
 End Closure.
+
+(** the wrapper types of distinct unions are distinct: appending a suffix is injective *)
+Lemma append_length a b : String.length (a ++ b) = String.length a + String.length b.
+Proof. induction a as [|c a IH]; simpl; [reflexivity|]. rewrite IH. reflexivity. Qed.
+
+Lemma append_inj_l s : forall a b, a ++ s = b ++ s -> a = b.
+Proof.
+  induction a as [|c a IH]; intros b H.
+  - destruct b as [|d b]; [reflexivity|]. exfalso. apply (f_equal String.length) in H. simpl in H. rewrite append_length in H. lia.
+  - destruct b as [|d b].
+    + exfalso. apply (f_equal String.length) in H. simpl in H. rewrite append_length in H. lia.
+    + simpl in H. inversion H; subst. f_equal. apply IH. assumption.
+Qed.
+
+Lemma wrapper_names_nodup (names : list string) : NoDup names -> NoDup (map (fun n => n ++ "Wrapper") names).
+Proof.
+  induction 1 as [|x l Hx Hl IH]; simpl; constructor; [|exact IH].
+  intro Hin. apply in_map_iff in Hin. destruct Hin as [y [E Hy]]. apply append_inj_l in E. subst. contradiction.
+Qed.
+
+(** * The defect repaired by 247447e, and the repaired traversal, on the same program *)
+Definition ex_decl (id name : string) (u : gunder) : ndecl :=
+  {| n_id := id; n_pkg := "m"; n_pkg_name := "m"; n_name := name; n_targs := []; n_under := u; n_exported := true;
+     n_is_time := false; n_mset := []; n_in_scope := true |}.
+
+Definition ex_node (at_ : gty) (k : akind) (children : list gty) (fields : list afield) (members : list string) : nrec :=
+  {| nr_at := at_; nr_kind := k; nr_self := at_; nr_len := 0%Z; nr_bkind := None; nr_is_date := false; nr_children := children;
+     nr_fields := fields; nr_comments := []; nr_implements := []; nr_members := members; nr_in_types := true |}.
+
+Definition ex_field (name : string) (t : gty) (tag : string) : afield :=
+  {| af_name := name; af_type := t; af_tag := tag; af_go_exported := true; af_exported := true; af_json := name |}.
+
+(** type T struct { A int; S Shape `gomacro:"ignore"` } in the analysed file, Shape and Circle in another file *)
+Definition ex_prog : prog :=
+  {| pr_root := "m"; pr_pkgs := [];
+     pr_types := [ex_decl "m.T" "T" (UStruct []); ex_decl "m.Shape" "Shape" (UInterface []); ex_decl "m.Circle" "Circle" (UStruct [])] |}.
+
+Definition ex_nodes : list nrec :=
+  [ex_node (GNamed "m.T") KdStruct [GBasic KInt; GNamed "m.Shape"]
+     [ex_field "A" (GBasic KInt) ""; ex_field "S" (GNamed "m.Shape") "gomacro:""ignore"""] [];
+   ex_node (GBasic KInt) KdBasic [] [] [];
+   ex_node (GNamed "m.Shape") KdUnion [GNamed "m.Circle"] [] ["m.Circle"];
+   ex_node (GNamed "m.Circle") KdStruct [] [] []].
+
+Lemma ignored_union_field_refuted :
+  structs_with_unions_local ex_prog ex_nodes = true
+  /\ (exists ds, gounions ex_prog ex_nodes false [GNamed "m.T"] = Ok ds /\ closed ds = false)
+  /\ (exists ds, gounions ex_prog ex_nodes true [GNamed "m.T"] = Ok ds /\ closed ds = true
+                 /\ map gd_id ds = ["Shape"; "T_json"] /\ declared_types ds = ["ShapeWrapper"]).
+Proof.
+  split; [reflexivity|]. split; eexists; (split; [vm_compute; reflexivity|]); vm_compute; repeat split.
+Qed.
+
+(** * Every declaration of the output is one of the three forms, with the side conditions of the traversal *)
+Section Forall.
+  Variable pr : prog.
+  Variable nodes : list nrec.
+  Variable b : bool.
+  Variable Q : gdecl -> Prop.
+  Hypothesis Qu : forall n ud d, union_decl pr n = Ok ud -> is_local pr (nr_at n) = true -> In d ud -> Q d.
+  Hypothesis Qc : forall t c, is_local pr t = true -> Q (container_decl pr t c).
+  Hypothesis Qs : forall t n, find_node t nodes = Some n -> nr_kind n = KdStruct ->
+    existsb (fun fd => is_union_at nodes (af_type fd)) (nr_fields n) = true -> Q (struct_decl pr nodes t n).
+
+  Lemma union_decl_forall n ud : union_decl pr n = Ok ud -> Forall Q ud.
+  Proof.
+    intro H. apply Forall_forall. intros d Hd. destruct (is_local pr (nr_at n)) eqn:L; [eapply Qu; eassumption|].
+    unfold union_decl in H. rewrite L in H. simpl in H. inversion H; subst. destruct Hd.
+  Qed.
+
+  Lemma union_decl_at_forall c ud : union_decl_at pr nodes c = Ok ud -> Forall Q ud.
+  Proof. unfold union_decl_at. destruct (find_node c nodes); [apply union_decl_forall|discriminate]. Qed.
+
+  Lemma fold_fields_forall g : (forall cache t cache' ds, g cache t = Ok (cache', ds) -> Forall Q ds) ->
+    forall fs cache cache' ds, fold_fields nodes b g fs cache = Ok (cache', ds) -> Forall Q ds.
+  Proof.
+    intro Hg. induction fs as [|fd r IH]; intros cache cache' ds H; cbn [fold_fields] in H.
+    - inversion H; subst. constructor.
+    - destruct (visited nodes b fd).
+      + destruct (g cache (af_type fd)) as [[c1 d1]| |] eqn:G; simpl in H; try discriminate.
+        destruct (fold_fields nodes b g r c1) as [[c2 d2]| |] eqn:F; simpl in H; try discriminate.
+        inversion H; subst. apply Forall_app. split; [eapply Hg; eassumption|eapply IH; eassumption].
+      + simpl in H. destruct (fold_fields nodes b g r cache) as [[c2 d2]| |] eqn:F; simpl in H; try discriminate.
+        inversion H; subst. eapply IH; eassumption.
+  Qed.
+
+  Lemma generate_forall : forall fuel cache t cache' ds, generate pr nodes b fuel cache t = Ok (cache', ds) -> Forall Q ds.
+  Proof.
+    induction fuel as [|f IH]; intros cache t cache' ds H; cbn [generate] in H; [discriminate|].
+    destruct (find_node t nodes) as [n|] eqn:F; [|discriminate].
+    destruct (fst (check cache t)); [inversion H; subst; constructor|].
+    destruct (nr_kind n) eqn:K.
+    - inversion H; subst; constructor.
+    - inversion H; subst; constructor.
+    - destruct (nr_children n) as [|c r]; [discriminate|]. destruct (is_union_at nodes c); [discriminate|]. eapply IH; eassumption.
+    - destruct (nr_children n) as [|k [|c r]]; try discriminate. destruct (is_union_at nodes c); [discriminate|]. eapply IH; eassumption.
+    - destruct (is_local pr t) eqn:L; simpl in H; [|inversion H; subst; constructor].
+      destruct (nr_children n) as [|u r]; [discriminate|].
+      destruct (find_node u nodes) as [un|]; [|discriminate].
+      destruct (nr_kind un); destruct (nr_children un) as [|c1 [|c2 r2]]; try discriminate;
+        try (inversion H; subst; constructor; fail).
+      + destruct (is_union_at nodes c1); [|eapply IH; eassumption].
+        destruct (union_decl_at pr nodes c1) as [ud| |] eqn:U; simpl in H; try discriminate. inversion H; subst.
+        apply Forall_app. split; [eapply union_decl_at_forall; eassumption|]. constructor; [apply Qc; exact L|constructor].
+      + destruct (is_union_at nodes c1); [|eapply IH; eassumption].
+        destruct (union_decl_at pr nodes c1) as [ud| |] eqn:U; simpl in H; try discriminate. inversion H; subst.
+        apply Forall_app. split; [eapply union_decl_at_forall; eassumption|]. constructor; [apply Qc; exact L|constructor].
+      + destruct (is_union_at nodes c2); [|eapply IH; eassumption].
+        destruct (union_decl_at pr nodes c2) as [ud| |] eqn:U; simpl in H; try discriminate. inversion H; subst.
+        apply Forall_app. split; [eapply union_decl_at_forall; eassumption|]. constructor; [apply Qc; exact L|constructor].
+    - inversion H; subst; constructor.
+    - destruct (fold_fields nodes b (generate pr nodes b f) (nr_fields n) (snd (check cache t))) as [[c2 d2]| |] eqn:FF; simpl in H; try discriminate.
+      pose proof (fold_fields_forall _ IH _ _ _ _ FF) as HF.
+      destruct (existsb (fun fd => is_union_at nodes (af_type fd)) (nr_fields n)) eqn:EX; inversion H; subst; [|exact HF].
+      apply Forall_app. split; [exact HF|]. constructor; [eapply Qs; eassumption|constructor].
+    - destruct (union_decl pr n) as [ud| |] eqn:U; simpl in H; try discriminate. inversion H; subst. eapply union_decl_forall; eassumption.
+    - destruct (nr_children n) as [|c r]; [discriminate|]. eapply IH; eassumption.
+  Qed.
+
+  Lemma gen_all_forall fuel : forall src cache ds, gen_all pr nodes b fuel src cache = Ok ds -> Forall Q ds.
+  Proof.
+    induction src as [|t r IH]; intros cache ds H; cbn [gen_all] in H.
+    - inversion H; subst. constructor.
+    - destruct (generate pr nodes b fuel cache t) as [[c1 d1]| |] eqn:G; simpl in H; try discriminate.
+      destruct (gen_all pr nodes b fuel r c1) as [d2| |] eqn:GA; simpl in H; try discriminate.
+      inversion H; subst. apply Forall_app. split; [eapply generate_forall; eassumption|eapply IH; eassumption].
+  Qed.
+End Forall.
+
+(** methods are declared on the wrapper types of the output or on defined types of the analysed package: Go
+    refuses a method on a type of another package *)
+Definition receiver_fine (pr : prog) (d : gdecl) : Prop :=
+  forall r m, In (r, m) (gd_methods d) -> In r (gd_types d) \/ exists t, is_local pr t = true /\ r = lname pr t.
+
+Theorem gounions_receivers_local pr nodes b src ds :
+  structs_with_unions_local pr nodes = true ->
+  gounions pr nodes b src = Ok ds -> Forall (receiver_fine pr) ds.
+Proof.
+  intros Hloc H. unfold gounions in H. eapply gen_all_forall; [| | |exact H].
+  - intros n ud d U L Hd. unfold union_decl in U. rewrite L in U. simpl in U.
+    destruct (mapM _ (nr_members n)); simpl in U; try discriminate. inversion U; subst. destruct Hd as [E|[]]. subst d.
+    intros r m Hin. left. simpl in *. destruct Hin as [E|[E|[]]]; inversion E; subst; left; reflexivity.
+  - intros t c L r m Hin. right. exists t. split; [exact L|]. simpl in Hin. destruct Hin as [E|[E|[]]]; inversion E; reflexivity.
+  - intros t n F K EX r m Hin. right. exists t. split.
+    + destruct (find_node_at _ _ _ F) as [A Hn]. unfold structs_with_unions_local in Hloc. rewrite forallb_forall in Hloc.
+      specialize (Hloc n Hn). rewrite K, EX in Hloc. simpl in Hloc. rewrite A in Hloc. exact Hloc.
+    + simpl in Hin. destruct Hin as [E|[E|[]]]; inversion E; reflexivity.
+Qed.
+
+(** the names declared at top level are those of the unions of the analysed package: wrapper types and kind constants *)
+Definition declares_for_unions_only (d : gdecl) : Prop :=
+  (gd_types d = [] /\ gd_consts d = []) \/ (exists name, gd_id d = name /\ gd_types d = [name ++ "Wrapper"]).
+
+Theorem gounions_declares_wrappers_only pr nodes b src ds :
+  gounions pr nodes b src = Ok ds -> Forall declares_for_unions_only ds.
+Proof.
+  intro H. unfold gounions in H. eapply gen_all_forall; [| | |exact H].
+  - intros n ud d U L Hd. unfold union_decl in U. rewrite L in U. simpl in U.
+    destruct (mapM _ (nr_members n)); simpl in U; try discriminate. inversion U; subst. destruct Hd as [E|[]]. subst d.
+    right. eexists. split; reflexivity.
+  - intros t c _. left. split; reflexivity.
+  - intros t n _ _ _. left. split; reflexivity.
+Qed.
